@@ -69,6 +69,9 @@ type Case struct {
 	Nul bool `json:"nul,omitempty"`
 	// ListWrite: the write step is `shfmt -l -w` rather than `shfmt -w`.
 	ListWrite bool `json:"list_write,omitempty"`
+	// ECExtra: a further EditorConfig section that applies to some of the
+	// files only, so that one run formats files under different settings.
+	ECExtra string `json:"ec_extra,omitempty"`
 }
 
 func (o Opts) flags() []string {
@@ -213,6 +216,9 @@ var messyOther = []string{
 
 // Lines that no option set changes: simple commands and assignments.
 var clean = []string{
+	"echo $(($x + 1))",
+	"[[ \"$a\" == \"b\" ]]",
+	"echo ${a[$i]} \"$(foo)\"",
 	"echo foo bar",
 	"x=1",
 	"foo",
@@ -374,6 +380,10 @@ func gen(t *rapid.T) Case {
 	c.Opts = genOpts(t)
 	c.EC = chance(t, "ec", 60)
 	c.Section = rapid.SampledFrom([]string{"[*]", "[*]", "[[shell]]"}).Draw(t, "section")
+	if chance(t, "ecextra", 30) {
+		c.ECExtra = rapid.SampledFrom([]string{"[sub/**]\nsimplify = true\n", "[*.bash]\nminify = true\n", "[other/*]\nsimplify = true\n",
+			"[sub/**]\nindent_style = space\nindent_size = 3\n", "[f0*]\nsimplify = true\n", "[f1*]\nminify = true\n", "[*.sh]\nbinary_next_line = true\nswitch_case_indent = true\n"}).Draw(t, "ecextratext")
+	}
 	c.Dot = rapid.Bool().Draw(t, "dot")
 	c.Nul = chance(t, "nul", 30)
 	c.ListWrite = chance(t, "lw", 50)
@@ -485,6 +495,9 @@ func writeTree(root string, c Case) error {
 	ec := "root = true\n"
 	if c.EC {
 		ec = c.Opts.editorconfig(c.Section)
+	}
+	if c.ECExtra != "" {
+		ec += "\n" + c.ECExtra
 	}
 	if err := os.WriteFile(filepath.Join(root, ".editorconfig"), []byte(ec), 0o644); err != nil {
 		return err
@@ -624,7 +637,7 @@ func check(c Case) (res vh.Result) {
 			}
 		}
 		// flags and the equivalent EditorConfig settings give the same bytes
-		if c.EC && len(c.Opts.flags()) > 0 {
+		if c.EC && len(c.Opts.flags()) > 0 && c.ECExtra == "" {
 			o2 := run(shfmt, cwd, base, []byte(bodies[p]), append(c.Opts.flags(), "--filename", p)...)
 			if o2.timeout {
 				return skip("inconclusive:timeout")
